@@ -1623,3 +1623,15 @@ TWINS["C04_twin_restore_guard_flipped"] = ("C04", [(S, RESTORE_LOOP, """        
                 continue
             memo.clear()
             memo.update(new_memo)""")])
+
+TWINS["C06_twin_confined_local_subclass"] = ("C06", [(S, """_shape_storage = threading.local()""", """class _PerThread(threading.local):
+    \"\"\"Per-thread storage (no class-level state, no __init__ arguments).\"\"\"
+
+
+_shape_storage = _PerThread()""")])
+TWINS["C05_twin_confined_local_subclass"] = ("C05", TWINS["C06_twin_confined_local_subclass"][1])
+SEEDS["C06_local_subclass_class_attribute"] = ("C06", [(S, """_shape_storage = threading.local()""", """class _PerThread(threading.local):
+    memo_stack: list = []
+
+
+_shape_storage = _PerThread()""")], "C06")
